@@ -4,9 +4,10 @@ from .ty import T
 
 
 class ClassSpec:
-    def __init__(self, file, name, fields, bases, invariant, properties, ghost_fields):
+    def __init__(self, file, name, fields, bases, invariant, properties, ghost_fields, iter_delegate=None):
         self.file, self.name, self.fields, self.bases = file, name, fields, bases
         self.invariant, self.properties, self.ghost_fields = invariant, properties, ghost_fields
+        self.iter_delegate = iter_delegate
 
 
 class LoopSpec:
@@ -47,6 +48,7 @@ class Contract:
         self.provider_requires = dict(kw.pop("provider_requires", {}))  # provider name -> [exprs over idx, args, locals]
         self.provider_hints = dict(kw.pop("provider_hints", {}))        # provider name -> [ghost statements]
         self.pure_calls = list(kw.pop("pure_calls", []))   # method names assumed pure & provider-free (lenient only)
+        self.call_models = dict(kw.pop("call_models", {}))  # "self.f" -> spec expression for the value of self.f(...)
         self.variants = list(kw.pop("variants", []))      # [{name, params, requires, ensures, raises, ...}] type cases
         self.source = kw.pop("source", qual)              # qualified name of the def in `file` (inherited methods)
         self.lenient = kw.pop("lenient", False)           # untracked values become havocs (Unknown) instead of errors
@@ -70,9 +72,10 @@ class Registry:
         self.opaque_methods = {}
         self.opaque_attrs = {}
 
-    def klass(self, file, name, fields=None, bases=(), invariant=(), properties=(), ghost_fields=None):
+    def klass(self, file, name, fields=None, bases=(), invariant=(), properties=(), ghost_fields=None,
+              iter_delegate=None):
         self.classes[name] = ClassSpec(file, name, dict(fields or {}), list(bases), list(invariant), list(properties),
-                                       dict(ghost_fields or {}))
+                                       dict(ghost_fields or {}), iter_delegate)
 
     def contract(self, file, qual, **kw):
         c = Contract(file, qual, **kw)
